@@ -4,6 +4,8 @@ package drv
 import (
 	"encoding/hex"
 	"fmt"
+	"runtime"
+	"strings"
 	"time"
 
 	"github.com/mit-pdos/go-nfsd/nfstypes"
@@ -258,7 +260,48 @@ func (c *Call) Exec(api API) {
 		*c = cc
 	case <-time.After(ExecTimeout):
 		c.St = "TIMEOUT"
+		c.Wedge = wedgeKind()
+		c.PanicV = stackSummary()
 	}
+}
+
+// stackSummary: where the goroutines that are inside go-nfsd / go-journal code stand (for the replay file of a hang)
+func stackSummary() string {
+	buf := make([]byte, 1<<20)
+	n := runtime.Stack(buf, true)
+	var out []string
+	for _, g := range strings.Split(string(buf[:n]), "\n\n") {
+		if !strings.Contains(g, "mit-pdos/") {
+			continue
+		}
+		var fr []string
+		for _, ln := range strings.Split(g, "\n") {
+			if strings.HasPrefix(ln, "github.com/mit-pdos/") || strings.HasPrefix(ln, "sync.") || strings.HasPrefix(ln, "verif/harness/vdisk") {
+				f := ln
+				if i := strings.Index(f, "("); i > 0 && !strings.HasPrefix(ln, "github.com/mit-pdos/go-nfsd/nfs.(*Nfs)") {
+					f = strings.TrimPrefix(f, "github.com/mit-pdos/")
+				}
+				if i := strings.LastIndex(f, "("); i > 0 {
+					f = f[:i]
+				}
+				fr = append(fr, strings.TrimPrefix(f, "github.com/mit-pdos/"))
+				if len(fr) >= 7 {
+					break
+				}
+			}
+		}
+		if len(fr) > 0 {
+			out = append(out, strings.Join(fr, " < "))
+		}
+		if len(out) >= 8 {
+			break
+		}
+	}
+	r := strings.Join(out, " || ")
+	if len(r) > 1800 {
+		r = r[:1800]
+	}
+	return r
 }
 
 func (c *Call) ExecRaw(api API) {
